@@ -252,7 +252,9 @@ def pipeline_shard(rec, spec):
                             ci += 1
                             continue
                         pool = PICKLABLE if exec_mode.endswith("processes") else names
-                        cls = pool[ci % len(pool)]
+                        # (the class rotates with the number of *injected* points: rotating with ci would tie the
+                        #  class to the every-third-point selection of the dask modes and never reach two thirds of them)
+                        cls = pool[(ci if exec_mode == "obs_seq" else ci // 3) % len(pool)]
                         ci += 1
                         point = {"model": m, "step": step, "cls": cls, "k": k, "token": f"boom-{m}-{step}-{int(k)}-{ci}",
                                  "own_note": (ci // 3) % 2 == 0}
@@ -291,6 +293,8 @@ def pipeline_shard(rec, spec):
                                 rec.violation("C09:obs_seq:runs-executed-after-fault",
                                               f"{len(after)} model calls after the failing model (later runs were executed)", case, i)
                         rec.observe("exception_classes", cls)
+                        if dask_on:
+                            rec.observe("exception_classes_dask", cls)
                         rec.case((exec_mode, sorted(pspec), n_steps, m, step, r, cls), True)
         rec.observe("pipelines", len(models))
 
@@ -356,6 +360,9 @@ def finalize(counters, sets, tier):
     out = []
     if counters.get("fault_points_hit", 0) < counters.get("fault_points_planned", 0) - counters.get("calibration_fault_point_not_reached", 0):
         out.append(f"only {counters.get('fault_points_hit')} of {counters.get('fault_points_planned')} planned fault points were hit")
+    missing = sorted(set(CLASSES) - set(sets.get("exception_classes_dask", [])))
+    if missing:
+        out.append(f"exception classes never injected in a dask mode: {missing}")
     return out
 
 
